@@ -46,6 +46,10 @@ fn parse_hist(s: &str) -> Vec<Op> {
 fn main() {
     oracle::sys::install_crash_handlers();
     oracle::quiet_panics();
+    oracle::run_engine(real_main);
+}
+
+fn real_main() {
     let cmd = std::env::args().nth(1).unwrap_or_default();
     let profile = if cfg!(debug_assertions) { "dbg" } else { "rel" };
     let parity = arg("--parity", "even");
